@@ -230,8 +230,10 @@ class World(StackWorld):
         inv = ch.pick(self.order, "which")
         inv.interrupts += 1
         self.run.fault("interrupt")
-        self.run.log("dealer", "INTERRUPT", inv.id)
-        self.dealer_send(M.Interrupt(inv.id))
+        mode = ch.pick((None, M.Interrupt.KILL, M.Interrupt.KILLNOWAIT), "interrupt-mode")
+        self.run.log("dealer", "INTERRUPT", inv.id, mode)
+        self.run.probe("interrupt-mode:%s" % mode)
+        self.dealer_send(M.Interrupt(inv.id, mode=mode))
 
     def resolve_user(self):
         ch = self.run.ch
